@@ -10,7 +10,7 @@ Replay for proofs of statements generated from Stark.tla the harness lays the gr
     C03: accepted with a different decoded content (after masking the FRI partition count and re-encoding digests) is a
     violation.  C06: any panic while parsing or verifying is a violation."""
 import json, os, time, resource
-import vlib, starkgen, c01
+import vlib, starkgen, c01, vmodel
 from vlib import log
 
 
@@ -252,6 +252,14 @@ def run(tier, seed, pid="C03"):
         log("[replay] %d proofs with at least as many queries as LDE points verified" % over_n)
     for d in sorted(drift)[:20]:
         log("SPEC-DRIFT (not a violation): " + d)
+    vm = None
+    if pid == "C03":
+        # "every value the verifier consumes is tied to a commitment": Trace_Verifier.tla demands, for every row an accepted proof
+        # opens (trace segments, composition columns, every FRI layer), a chain of merges performed by the real verifier (recording
+        # hasher) from the row's hash to the commitment, entered on the side the position's bits name (MerkleChain.tla)
+        r3, stmts3 = c01.gen(6, 1)
+        vm = vmodel.run(tier, seed, stmts3, wd)
+        vmodel.judge(v, vm, ("commitment",), pid)
     tot, tally = summarize(obs)
     log("[replay] %s; verdicts %s" % (tot, tally))
     rc = v.finish()
